@@ -12,7 +12,7 @@ Ltac Zify.zify_post_hook ::= Z.div_mod_to_equations.
 Theorem dec_hdr_bounds : forall inp h rest, dec_hdr inp = DecOk h rest ->
   h_plen h < 9223372036854775808 /\ h_opc h < 16.
 Proof.
-  intros inp h rest H. unfold dec_hdr in H.
+  intros inp h rest H. unfold dec_hdr, dec_ext in H.
   destruct inp as [|b0 [|b1 r]]; try discriminate. cbv zeta in H.
   destruct (take_n _ r) as [[eb r1]|]; [|discriminate].
   match type of H with context [9223372036854775808 <=? ?p] => destruct (N.leb_spec 9223372036854775808 p) as [|Hlt]; [discriminate|] end.
@@ -24,7 +24,7 @@ Qed.
 (* a 64-bit length field with the top bit set is rejected (nothing is read or allocated for it) *)
 Theorem dec_hdr_topbit : forall b0 b1 eb rest, b1 mod 128 = 127 -> length eb = 8%nat -> 9223372036854775808 <= be_val eb ->
   dec_hdr (b0 :: b1 :: eb ++ rest) = DecNeg.
-Proof. intros b0 b1 eb rest H7 Hl Hv. unfold dec_hdr. cbv zeta. rewrite H7.
+Proof. intros b0 b1 eb rest H7 Hl Hv. unfold dec_hdr, dec_ext. cbv zeta. rewrite H7.
   change (127 =? 126) with false. change (127 =? 127) with true. cbv iota.
   rewrite <- Hl, take_n_app. rewrite Hl. change (Nat.eqb 8 0) with false. cbv iota.
   destruct (N.leb_spec 9223372036854775808 (be_val eb)); [reflexivity|lia]. Qed.
